@@ -306,9 +306,13 @@ where
         let (n_chains, dim) = (shape.dims[0], shape.dims[1]);
 
         // 1) Sample momenta: shape [n_chains, D]
-        let momentum_0 = Tensor::<B, 2>::random(
-            Shape::new([n_chains, dim]),
-            burn::tensor::Distribution::Normal(0., 1.),
+        // Drawn from the sampler's own generator (not the backend's process-global one), so
+        // that `set_seed` makes runs reproducible and samplers do not influence one another.
+        let momentum_data: Vec<T> = (0..n_chains * dim)
+            .map(|_| self.rng.sample(StandardNormal))
+            .collect();
+        let momentum_0 = Tensor::<B, 2>::from_data(
+            TensorData::new(momentum_data, [n_chains, dim]),
             &B::Device::default(),
         );
 
@@ -356,9 +360,8 @@ where
         for _ in 0..n_chains {
             uniform_data.push(self.rng.random::<T>());
         }
-        let uniform = Tensor::<B, 1>::random(
-            Shape::new([n_chains]),
-            burn::tensor::Distribution::Default,
+        let uniform = Tensor::<B, 1>::from_data(
+            TensorData::new(uniform_data, [n_chains]),
             &B::Device::default(),
         );
 
